@@ -44,11 +44,11 @@ def run(tier, seed):
     qs = []
     ncase = 13
     for c in range(ncase):
-        slices = ['case == %d' % c]
+        slices = ['case == %d' % c + (' and o3 == 0' if tier == 'quick' else '')]
         for i, pre in enumerate(slices):
             new = 'check_c%d_%d' % (c, i)
             qs.append(Query(new, src + '\n\n' + _copy(src, 'check', new, pre), new, 'main',
-                            240 if tier == 'quick' else 400, per_path=30, meta={'case': c}, label='E'))
+                            240 if tier == 'quick' else 1500, per_path=30, meta={'case': c}, label='E'))
     qs.append(Query('check__twin', src + '\n\n' + _copy(src, 'check', 'check__twin', 'case == 0', twin=True),
                     'check__twin', 'twin', 60))
     runner.run_queries(PID, qs)
@@ -60,7 +60,7 @@ def run(tier, seed):
                   'first definition, from-import and attribute access across a project module) and 2 completion requests whose proposals differ '
                   'only by letter case, 1 completion through a qualified import held by a cached project module, 2 completions on a module that exists in several configured roots',
                   'every request is issued repeatedly on one Project object (2-3 times) and once more on a new one: all answers are equal',
-                  'every permutation of the first three sets of 2..3 elements iterated on the path (6^3 orders); sets of 4 '
+                  'every permutation of the first three (thorough: four) sets of 2..3 elements iterated on the path (6^3 / 6^4 orders; later sets cycle through the same choices); sets of 4 '
                   'elements: 6 of 24 orders']
     rep.assumptions = ['the name `set` in supp.name/supp.scope/supp.evaluator/supp.assistant/supp.project/supp.linter is rebound to a set subclass with '
                        'solver-chosen iteration order; dict order and os.listdir order are not varied',
